@@ -139,8 +139,11 @@ type session struct {
 	out *bytes.Buffer
 }
 
+// sessionArgs are the arguments every Eval session of the current family is created with.
+var sessionArgs []ugo.Object
+
 func newSession(noopt bool) *session {
-	return &session{ev: ugo.NewEval(ugo.CompilerOptions{NoOptimize: noopt, ModuleMap: moduleMap()}, ugo.Map{}), out: &bytes.Buffer{}}
+	return &session{ev: ugo.NewEval(ugo.CompilerOptions{NoOptimize: noopt, ModuleMap: moduleMap()}, ugo.Map{}, append([]ugo.Object{}, sessionArgs...)...), out: &bytes.Buffer{}} // a fresh slice: Eval keeps and re-uses it
 }
 
 func (s *session) run(frag string) (r fragResult, pan any) {
@@ -186,6 +189,50 @@ func run10(c *fw.Ctx) {
 		}
 	}
 	rec()
+	// sessions created with arguments: a param declaration (fixed, variadic) in the first statement, locals and closures
+	// after it, every cut
+	c.Family("params", "Eval created with arguments (1, 2, 3): 5 param declarations followed by <= 3 of 7 statements, all cuts")
+	saved := alphabet
+	sessionArgs = []ugo.Object{ugo.Int(1), ugo.Int(2), ugo.Int(3)}
+	heads := []stmt{
+		{src: "param (a, ...b)", declares: []string{"a", "b"}},
+		{src: "param (a, b)", declares: []string{"a", "b"}},
+		{src: "param (a, b, c0, d0)", declares: []string{"a", "b", "c0", "d0"}},
+		{src: "param ...a", declares: []string{"a"}},
+		{src: "param a", declares: []string{"a"}},
+	}
+	tails := []stmt{
+		{src: "c := 5", declares: []string{"c"}},
+		{src: "x, y := [7, 8]", declares: []string{"x", "y"}},
+		{src: "a = 9"},
+		{src: "f := func() { return a }", closures: []string{"f"}, tag: "closure"},
+		{src: "f()"},
+		{src: "a"},
+		{src: "for i := 0; i < 2; i++ { w := i; c0 := w }", tag: "slots"},
+	}
+	alphabet = append(append([]stmt{}, heads...), tails...)
+	var prec func()
+	prec = func() {
+		if len(seq) > 1 && c.Next() {
+			explore(c, seq)
+		}
+		if len(seq) == 4 {
+			return
+		}
+		lo, hi := len(heads), len(alphabet)
+		if len(seq) == 0 {
+			lo, hi = 0, len(heads)
+		}
+		for i := lo; i < hi; i++ {
+			seq = append(seq, i)
+			prec()
+			seq = seq[:len(seq)-1]
+		}
+	}
+	seq = seq[:0]
+	prec()
+	alphabet = saved
+	sessionArgs = nil
 }
 
 func explore(c *fw.Ctx, seq []int) {
